@@ -584,13 +584,15 @@ package statsd
 //@   modifies everything
 // post (C15): one request body is attempted again only after a failed attempt and never after a success; it ends in
 // exactly one of: sent (counted once), given up when the retry window is exhausted (counted once as dropped),
-// abandoned because the context is done, or never created (counted once as invalid).
+// abandoned because the context is done, or never created (counted once as invalid). (The give-up path is identified
+// by its log statement: the drop is counted before it is logged.)
 //@ functype doPost() sig func() error
 //@   modifies everything
 //@   preserves statsd.HttpForwarderHandlerV2
 //@ func (*HttpForwarderHandlerV2).post
 //@   requires hfh != nil && hfh.logger != nil
 //@   callsite post requires hfh.messagesSent == old(hfh.messagesSent) && hfh.messagesDropped == old(hfh.messagesDropped) && hfh.messagesInvalid == old(hfh.messagesInvalid)
+//@   callsite Info requires hfh.messagesDropped == wrapu64(old(hfh.messagesDropped) + 1)
 //@   loop 1 invariant calls(post) >= 0 && post != nil && hfh.logger != nil && hfh.messagesSent == old(hfh.messagesSent) && hfh.messagesDropped == old(hfh.messagesDropped) && hfh.messagesInvalid == old(hfh.messagesInvalid) && hfh.messagesCreated == wrapu64(old(hfh.messagesCreated) + 1)
 //@   loop 2 invariant calls(post) >= 1 && hfh.messagesSent == wrapu64(old(hfh.messagesSent) + 1) && hfh.messagesDropped == old(hfh.messagesDropped) && hfh.messagesInvalid == old(hfh.messagesInvalid)
 //@   ensures  [outcome] hfh.messagesSent == old(hfh.messagesSent) || hfh.messagesSent == wrapu64(old(hfh.messagesSent) + 1)
